@@ -15,7 +15,7 @@ import (
 func c02Gen(rt *rapid.T) vpState {
 	code, k, jt, z := vpGenProgram(rt, true, 14)
 	pages := vpGenPages(rt)
-	st := vpState{Blob: vpAssemble(code, k, jt, z), Pages: pages, Regs: vpGenRegs(rt, pages), Gas: vpGenGas(rt), Host: vpGenHost(rt)}
+	st := vpState{Blob: vpAssembleGen(rt, code, k, jt, z), Pages: pages, Regs: vpGenRegs(rt, pages), Gas: vpGenGas(rt), Host: vpGenHost(rt)}
 	if rapid.IntRange(0, 1).Draw(rt, "heapset") == 1 {
 		base := uint64(rapid.SampledFrom([]uint32{16, 17, 18, 32, 33, 0x1000}).Draw(rt, "heappage")) * ZP
 		st.Heap = base + uint64(rapid.SampledFrom([]int{0, 1, 100, ZP - 1}).Draw(rt, "heapoff"))
